@@ -1,11 +1,15 @@
 #!/usr/bin/env python3
-"""Round-2 seeding prompt: like seed_prompt.py plus a list of ideas already used (from seeded/*/meta.json), so the new
-changes explore other mechanisms. Usage: seed_prompt2.py Cnn N"""
+"""Later-round seeding prompt: like seed_prompt.py plus a list of ideas already used (from seeded/*/meta.json), so the
+new changes explore other mechanisms. Usage: seed_prompt2.py Cnn N [letter=n] [round=2]
+(round 2: ids Cnn-n1.., worktree /tmp/seed2-Cnn; round 3: letter p, worktree /tmp/seed3-Cnn)"""
 import json, sys, glob, os, subprocess
 pid=sys.argv[1]; n=sys.argv[2] if len(sys.argv)>2 else "3"
+letter=sys.argv[3] if len(sys.argv)>3 else "n"
+rnd=sys.argv[4] if len(sys.argv)>4 else "2"
 base=subprocess.run(["python3","/verif/tools/seed_prompt.py",pid,n],capture_output=True,text=True).stdout
 used=[]
-for p in sorted(glob.glob("/verif/seeded/%s-m*/meta.json"%pid)):
+for p in sorted(glob.glob("/verif/seeded/%s-*/meta.json"%pid)):
     m=json.load(open(p)); used.append("- "+(m.get("summary") or "")[:300])
-extra="\n\nIMPORTANT - ideas already used by earlier participants (do NOT repeat these or close variants; pick other mechanisms, other files of the anchored code, other input features):\n"+"\n".join(used)+"\n\nName your output directories %s-n1 … %s-n%s (not -m…) and write them under /tmp/seed2-%s/out/. Your worktree is /tmp/seed2-%s (not /tmp/seed-%s). Put a file out/go.mod containing the single line `module seedout` so that `go test ./...` in the worktree ignores the demo copies under out/." % (pid,pid,n,pid,pid,pid)
-print(base.replace("/tmp/seed-%s"%pid,"/tmp/seed2-%s"%pid).replace("%s-m"%pid,"%s-n"%pid)+extra)
+wt="/tmp/seed%s-%s"%(rnd,pid)
+extra="\n\nIMPORTANT - ideas already used by earlier participants (do NOT repeat these or close variants; pick other mechanisms, other files of the anchored code, other input features):\n"+"\n".join(used)+"\n\nName your output directories %s-%s1 … %s-%s%s (not -m…) and write them under %s/out/. Your worktree is %s (not /tmp/seed-%s). Put a file out/go.mod containing the single line `module seedout` so that `go test ./...` in the worktree ignores the demo copies under out/." % (pid,letter,pid,letter,n,wt,wt,pid)
+print(base.replace("/tmp/seed-%s"%pid,wt).replace("%s-m"%pid,"%s-%s"%(pid,letter))+extra)
